@@ -1,10 +1,21 @@
 import JoblibModel.Lru
+import JoblibModel.StoreLimits
 import JoblibModel.IOUtil
-/-! Driver for C18. Request: `B I D id size access id size access …` (`-` = None).
-Reply: `del <ids in eviction order>` or `bad-op`. -/
-open JoblibModel JoblibModel.Lru JoblibModel.IOUtil
+/-! Driver for C18. One request per line (`-` = None, `!` = "the stat call raises OSError"):
 
-def parseItems : List String → Option (List Item)
+* `sel B I D id size access id size access …`                → `del <ids in eviction order>`
+* `items <tree>`                                              → `items <n> {path size access}*n`
+* `memstr <code point>*`                                      → `ok <bytes>` | `ValueError` | `IndexError` | `outside`
+* `reduce <0|1 has backend> <B> <I> <D> <k> {path}*k <tree>`  → `returned calls <k> {path}*k dirs <m> {path}*m items <n>
+                                                                 {path size access}*n` | `raised <exception>`
+  with `B` = `-` | `i:<int>` | `s:<code points joined by ','>`; the `k` paths are the fault pattern (those for which
+  `clear_location` raises).
+
+`<tree>` = `D <name> <atime|!> <nfiles> {<name> <size|!> <atime|!>}*nfiles <nsubs> {<tree>}*nsubs` (names without blanks);
+a path is its components joined by `/`, `.` for the store location itself. Anything else: `bad-op`. -/
+open JoblibModel JoblibModel.Lru JoblibModel.StoreLimits JoblibModel.IOUtil
+
+def parseItems : List String → Option (List (Item Nat))
   | [] => some []
   | a :: b :: c :: r => do
     let id ← a.toNat?
@@ -14,13 +25,119 @@ def parseItems : List String → Option (List Item)
     pure (⟨id, sz, ac⟩ :: rest)
   | _ => none
 
+def statNat? (s : String) : Option (Option Nat) :=
+  if s = "!" then some none else (s.toNat?).map some
+
+def statInt? (s : String) : Option (Option Int) :=
+  if s = "!" then some none else (s.toInt?).map some
+
+def parseFiles : Nat → List String → Option (List File × List String)
+  | 0, ts => some ([], ts)
+  | n + 1, nm :: sz :: atm :: ts => do
+    let sz ← statNat? sz
+    let atm ← statInt? atm
+    let (fs, ts) ← parseFiles n ts
+    pure (⟨nm, sz, atm⟩ :: fs, ts)
+  | _, _ => none
+
+mutual
+def parseDir : Nat → List String → Option (Dir × List String)
+  | 0, _ => none
+  | fuel + 1, "D" :: name :: atm :: nf :: ts => do
+    let atm ← statInt? atm
+    let nf ← nf.toNat?
+    let (files, ts) ← parseFiles nf ts
+    match ts with
+    | ns :: ts =>
+      let ns ← ns.toNat?
+      let (subs, ts) ← parseDirs fuel ns ts
+      pure (.mk name atm files subs, ts)
+    | [] => none
+  | _, _ => none
+def parseDirs : Nat → Nat → List String → Option (List Dir × List String)
+  | _, 0, ts => some ([], ts)
+  | 0, _, _ => none
+  | fuel + 1, n + 1, ts => do
+    let (d, ts) ← parseDir fuel ts
+    let (ds, ts) ← parseDirs fuel n ts
+    pure (d :: ds, ts)
+end
+
+/-- A whole token list that is exactly one tree. -/
+def parseTree (ts : List String) : Option Dir :=
+  match parseDir (ts.length + 1) ts with
+  | some (d, []) => some d
+  | _ => none
+
+def parsePath (s : String) : Path :=
+  if s = "." then [] else s.splitOn "/"
+
+def showPath (p : Path) : String :=
+  if p.isEmpty then "." else "/".intercalate p
+
+def showItems (l : List (Item Path)) : String :=
+  joinSp (toString l.length :: l.flatMap (fun it => [showPath it.id, toString it.size, toString it.access]))
+
+def parseCodePoints : List String → Option (List Char)
+  | [] => some []
+  | t :: r => do
+    let n ← t.toNat?
+    if n.isValidChar then
+      let rest ← parseCodePoints r
+      pure (Char.ofNat n :: rest)
+    else none
+
+def parseBytesArg (s : String) : Option (Option BytesArg) :=
+  if s = "-" then some none
+  else if s.startsWith "i:" then ((s.drop 2).toString.toInt?).map (fun b => some (.int b))
+  else if s.startsWith "s:" then
+    let body := (s.drop 2).toString
+    let toks := if body.isEmpty then [] else body.splitOn ","
+    (parseCodePoints toks).map (fun cs => some (.str (String.ofList cs)))
+  else none
+
+def showMem : MemResult → String
+  | .ok b => "ok " ++ toString b
+  | .valueError => "ValueError"
+  | .indexError => "IndexError"
+  | .outside => "outside"
+
+def handleReduce : List String → String
+  | hb :: b :: i :: d :: k :: r =>
+    match (if hb = "1" then some true else if hb = "0" then some false else none),
+        parseBytesArg b, optInt? i, optInt? d, k.toNat? with
+    | some hb, some b, some i, some d, some k =>
+      if k ≤ r.length then
+        let faults := (r.take k).map parsePath
+        match parseTree (r.drop k) with
+        | some t =>
+          match reduceSize hb b i d (fun p => faults.contains p) t with
+          | .returned t' calls =>
+            let dirs := (osWalk t').map (fun e => showPath e.path)
+            joinSp (["returned", "calls", toString calls.length] ++ calls.map showPath ++
+              ["dirs", toString dirs.length] ++ dirs ++ ["items", showItems (getItems t')])
+          | .raised e => "raised " ++ e
+        | none => "bad-op"
+      else "bad-op"
+    | _, _, _, _, _ => "bad-op"
+  | _ => "bad-op"
+
 def handle (line : String) : String :=
   match tokens line with
-  | b :: i :: d :: r =>
+  | "sel" :: b :: i :: d :: r =>
     match optInt? b, optInt? i, optInt? d, parseItems r with
     | some b, some i, some d, some items =>
       "del " ++ joinSp ((itemsToDelete items ⟨b, i, d⟩).map (fun it => toString it.id))
     | _, _, _, _ => "bad-op"
+  | "items" :: r =>
+    match parseTree r with
+    | some t => "items " ++ showItems (getItems t)
+    | none => "bad-op"
+  | "memstr" :: r =>
+    match parseCodePoints r with
+    | some cs => showMem (memstrChars cs)
+    | none => "bad-op"
+  | "reduce" :: r => handleReduce r
   | _ => "bad-op"
 
 def main : IO Unit := lineLoop handle
